@@ -40,6 +40,7 @@ type Dev struct {
 	Addrs     []string `json:"addrs"` // 0 = A (alone), 1 = F (flood), 2 = S (spaced)
 	Events    []DevEv  `json:"events"`
 	Alone     []bool   `json:"alone"`
+	Control   []string `json:"control"` // "<what>@<index of the next event>"
 	TolNs     int64    `json:"tol_ns"`
 	Discarded int      `json:"discarded_attempts"`
 	Reasons   []string `json:"discard_reasons"`
@@ -70,7 +71,7 @@ func devAddrs(family string) []string {
 }
 
 // one attempt; reason != "" means the trace must be discarded (stall / anomaly)
-func devAttempt(family string) (evs []DevEv, alone []bool, reason string) {
+func devAttempt(family string) (evs []DevEv, alone []bool, control []string, reason string) {
 	addrs := devAddrs(family)
 	var peers []*devPeer
 	var rps []*cosim.RefPeer
@@ -83,7 +84,7 @@ func devAttempt(family string) (evs []DevEv, alone []bool, reason string) {
 	}
 	w, err := cosim.NewWorld(cosim.Config{Up: true}, false, rps...)
 	if err != nil {
-		return nil, nil, "world: " + err.Error()
+		return nil, nil, nil, "world: " + err.Error()
 	}
 	defer w.Close()
 	w.Timeout = 2 * time.Second
@@ -102,7 +103,7 @@ func devAttempt(family string) (evs []DevEv, alone []bool, reason string) {
 			}
 		}
 		if dp.cookie == nil {
-			return nil, nil, "no cookie reply for " + dp.from.String()
+			return nil, nil, nil, "no cookie reply for " + dp.from.String()
 		}
 	}
 
@@ -144,10 +145,10 @@ func devAttempt(family string) (evs []DevEv, alone []bool, reason string) {
 		}
 		ev, r := send(0)
 		if r != "" {
-			return nil, nil, "alone: " + r
+			return nil, nil, nil, "alone: " + r
 		}
 		if k > 0 && time.Unix(0, ev.Tb).Sub(lastEnd) < devMinGap {
-			return nil, nil, "alone: spacing lost"
+			return nil, nil, nil, "alone: spacing lost"
 		}
 		lastEnd = time.Unix(0, ev.Ta)
 		evs = append(evs, ev)
@@ -162,10 +163,10 @@ func devAttempt(family string) (evs []DevEv, alone []bool, reason string) {
 		if nS == 0 || !it.Before(nextS) {
 			ev, r := send(2)
 			if r != "" {
-				return nil, nil, "spaced: " + r
+				return nil, nil, nil, "spaced: " + r
 			}
 			if nS > 0 && time.Unix(0, ev.Tb).Sub(lastEnd) < devMinGap {
-				return nil, nil, "spaced: spacing lost"
+				return nil, nil, nil, "spaced: spacing lost"
 			}
 			lastEnd = time.Unix(0, ev.Ta)
 			nextS = lastEnd.Add(devSpacing)
@@ -174,7 +175,7 @@ func devAttempt(family string) (evs []DevEv, alone []bool, reason string) {
 		} else {
 			ev, r := send(1)
 			if r != "" {
-				return nil, nil, "flood: " + r
+				return nil, nil, nil, "flood: " + r
 			}
 			evs = append(evs, ev)
 		}
@@ -182,19 +183,58 @@ func devAttempt(family string) (evs []DevEv, alone []bool, reason string) {
 			time.Sleep(d)
 		}
 	}
-	return evs, alone, ""
+	// phase 3: F floods on, the sockets are re-opened under it
+	flood := func(d time.Duration) string {
+		end := time.Now().Add(d)
+		for time.Now().Before(end) {
+			it := time.Now()
+			ev, r := send(1)
+			if r != "" {
+				return r
+			}
+			evs = append(evs, ev)
+			if d := time.Until(it.Add(devFloodTick)); d > 0 {
+				time.Sleep(d)
+			}
+		}
+		return ""
+	}
+	if r := flood(80 * time.Millisecond); r != "" {
+		return nil, nil, nil, "flood3: " + r
+	}
+	control = append(control, fmt.Sprintf("listen_port=51821@%d", len(evs)))
+	if err, _ := w.Set("listen_port=51821\n"); err != nil {
+		return nil, nil, nil, "listen_port: " + err.Error()
+	}
+	if r := flood(80 * time.Millisecond); r != "" {
+		return nil, nil, nil, "flood3 after listen_port: " + r
+	}
+	control = append(control, fmt.Sprintf("down-up@%d", len(evs)))
+	if err := w.Dev.Down(); err != nil {
+		return nil, nil, nil, "down: " + err.Error()
+	}
+	if err := w.Dev.Up(); err != nil {
+		return nil, nil, nil, "up: " + err.Error()
+	}
+	if !w.Settle() {
+		return nil, nil, nil, "no quiescence after down/up"
+	}
+	if r := flood(80 * time.Millisecond); r != "" {
+		return nil, nil, nil, "flood3 after down/up: " + r
+	}
+	return evs, alone, control, ""
 }
 
 func runDev(family string) *Dev {
 	d := &Dev{Family: family, Addrs: devAddrs(family), TolNs: int64(devTol)}
 	for attempt := 0; attempt < 3; attempt++ {
-		evs, alone, reason := devAttempt(family)
+		evs, alone, control, reason := devAttempt(family)
 		if reason != "" {
 			d.Discarded++
 			d.Reasons = append(d.Reasons, reason)
 			continue
 		}
-		d.Events, d.Alone, d.Valid = evs, alone, true
+		d.Events, d.Alone, d.Control, d.Valid = evs, alone, control, true
 		break
 	}
 	if d.Events == nil {
@@ -213,8 +253,8 @@ func runDev(family string) *Dev {
 	if n := len(d.Events); n > 0 {
 		span = float64(d.Events[n-1].Ta-d.Events[0].Tb) / 1e9
 	}
-	d.Summary = fmt.Sprintf("%s: alone %s %d sent %d processed; flooding %s %d sent %d processed; spaced %s %d sent %d processed (%.2fs, %d attempts discarded)",
-		family, d.Addrs[0], cnt[0][0], cnt[0][1], d.Addrs[1], cnt[1][0], cnt[1][1], d.Addrs[2], cnt[2][0], cnt[2][1], span, d.Discarded)
+	d.Summary = fmt.Sprintf("%s: alone %s %d sent %d processed; flooding %s %d sent %d processed; spaced %s %d sent %d processed (%.2fs, control %v, %d attempts discarded)",
+		family, d.Addrs[0], cnt[0][0], cnt[0][1], d.Addrs[1], cnt[1][0], cnt[1][1], d.Addrs[2], cnt[2][0], cnt[2][1], span, d.Control, d.Discarded)
 	return d
 }
 
